@@ -257,6 +257,35 @@ fn main() {
         }
         "replay" => {
             let text = std::fs::read_to_string(&args[2]).expect("read replay file");
+            let generic: serde_json::Value = serde_json::from_str(&text).expect("parse replay file");
+            if generic["kind"].as_str() == Some("isolation") {
+                // run the listed runs in order in this process; compare the last one with itself run alone
+                let check = hist::parse_check(generic["property"].as_str().unwrap_or("C06")).expect("property");
+                let seed = generic["seed"].as_u64().unwrap_or(1);
+                let order: Vec<u64> = generic["order"].as_array().map(|a| a.iter().filter_map(|x| x.as_u64()).collect()).unwrap_or_default();
+                let target = *order.last().expect("order");
+                if args.iter().any(|a| a == "--alone") {
+                    driver::warm_up();
+                    let (_, o) = hist::run_seed(check, seed, target);
+                    println!("DIGEST {:x}", o.outcome.digest);
+                    return;
+                }
+                driver::warm_up();
+                let mut last = 0u64;
+                for i in &order {
+                    let (_, o) = hist::run_seed(check, seed, *i);
+                    last = o.outcome.digest;
+                }
+                let alone = std::process::Command::new(std::env::current_exe().unwrap()).args(["replay", &args[2], "--alone"]).output().expect("spawn");
+                let out = String::from_utf8_lossy(&alone.stdout).to_string();
+                let d2 = out.trim().strip_prefix("DIGEST ").and_then(|x| u64::from_str_radix(x, 16).ok()).unwrap_or(0);
+                if d2 != last {
+                    println!("REPRODUCED property={} oracle=process-isolation\n  what=answers of run {} after {} other runs in the same process\n  got =digest {:x}\n  want=digest {:x} (the same run alone in a fresh process)", check.id(), target, order.len() - 1, last, d2);
+                    std::process::exit(1);
+                }
+                println!("no violation (digest {:x})", last);
+                return;
+            }
             let t: hist::Trace = serde_json::from_str(&text).expect("parse replay file");
             let check = hist::parse_check(&t.property).expect("property");
             driver::warm_up();
